@@ -336,12 +336,16 @@ func init() {
 			fail("C05: Socket.Connect not found")
 			return
 		}
+		// tls.Dial(network, addr, config) or tls.DialWithDialer(dialer, network, addr, config): the config is last
 		dials := c05calls(sc.Body, "tls.Dial")
-		if len(dials) != 1 || len(dials[0].Args) != 3 {
-			fail("C05: expected one tls.Dial(network, addr, config) in Socket.Connect")
+		if len(dials) == 0 {
+			dials = c05calls(sc.Body, "tls.DialWithDialer")
+		}
+		if len(dials) != 1 || len(dials[0].Args) < 3 {
+			fail("C05: expected one tls.Dial / tls.DialWithDialer call in Socket.Connect")
 			return
 		}
-		dialCfg := c05src(dials[0].Args[2])
+		dialCfg := c05src(dials[0].Args[len(dials[0].Args)-1])
 		sockName := ""
 		sockGuards := []string{}
 		c05walk(sc.Body, func(as *ast.AssignStmt, g []string) {
@@ -364,7 +368,7 @@ func init() {
 			fail("C05: unrecognised ServerName expression %q in Socket.Connect", sockName)
 		}
 		fmt.Fprintf(b, "/-- socket.go Connect: address expression handed to tls.Dial, and the ServerName it sets on the config before (\"\" = none) -/\n")
-		fmt.Fprintf(b, "def socketDialAddrExpr : String := %s\ndef socketDialServerNameExpr : String := %s\n", leanStr05(c05src(dials[0].Args[1])), leanStr05(sockName))
+		fmt.Fprintf(b, "def socketDialAddrExpr : String := %s\ndef socketDialServerNameExpr : String := %s\n", leanStr05(c05src(dials[0].Args[len(dials[0].Args)-2])), leanStr05(sockName))
 		fmt.Fprintf(b, "/-- true iff Socket.Connect names the upstream host (url Hostname) for verification; false = crypto/tls derives the name from the dialled (resolved) address -/\ndef socketDialSetsHostname : Bool := %v\n\n", sets)
 
 		// ---- 5. UDP shared secret: both pbkdf2 calls, the salt, the cipher
